@@ -252,7 +252,7 @@ def cli_job(item):
             if good: S['replayed'] += 1
             else: S['mismatches'].append({'harness': 'jp', 'req': req, 'engine': {'code': ex.u_code, 'stdout': text_of(ex.u_out, ex.u_model)}, 'native': a})
             S.sample({'harness': 'jp', **{k: req[k] for k in ('expr', 'json', 'expr_src', 'json_src', 'ast', 'unquoted', 'faults')}, 'exit': a['code'], 'stdout': a['stdout'][:80]}, cap=2)
-    n, rest = eng.explore(body, on_path, max_paths=2000)
+    n, rest = eng.explore(body, on_path, max_paths=40000)
     if rest: S.inconclusive(f'jp {expr!r} {jtxt!r}: cap/deadline after {n} paths')
     S.absorb_engine(eng)
     return S
